@@ -134,6 +134,16 @@ class SurfaceSubdivision(Logger):
                     new_edges.add(keyify(new_edge))
             
             newMeshData.edges += list(new_edges)
+            # the edges listed above are generated ones, not edges declared by the user: only the two halves of a hard edge stay hard
+            hard_edges = newMeshData.edges.create_attribute("hard_edges", bool)
+            if self.mesh.edges.has_attribute("hard_edges"):
+                old_hard_edges = self.mesh.edges.get_attribute("hard_edges")
+                new_edge_index = dict([(e,i) for i,e in enumerate(newMeshData.edges)])
+                for ie,(A,B) in enumerate(self.mesh.edges):
+                    if old_hard_edges[ie]:
+                        C = half[keyify(A,B)]
+                        hard_edges[new_edge_index[keyify(A,C)]] = True
+                        hard_edges[new_edge_index[keyify(C,B)]] = True
             self.mesh = newMeshData
 
     @allowed_mesh_types(SurfaceMesh)
